@@ -146,15 +146,30 @@ def field_sig(op):
 def observe(circuit, top_entries=None):
     ops = circuit.operations
     pos = {id(o): i for i, o in enumerate(ops)}
+    # which top-level command every listed operation belongs to: k for the operation added by command k, -(10+k) for an operation
+    # inside the sub-circuit added by command k
+    inside = {}
+    if top_entries:
+        for sub in circuit.circuit_structure._circuit_graph.get_node_iterator():
+            e = sub.operation
+            if id(e) in top_entries and isinstance(e, CircuitCompositeOperation):
+                for x in e.decomposed_operations():
+                    inside[id(x)] = -(10 + top_entries[id(e)])
     res = []
     for o in ops:
         r = rel_of(o)
         if r is not None:
-            r['ref_pos'] = pos.get(r.pop('ref_id'), -2 if r['comp'] else -1)     # -2: referent is a sub-circuit; -1: not listed at all
+            rid = r.pop('ref_id')
+            if r['comp'] and top_entries and rid in top_entries:
+                r['ref_pos'] = -(10 + top_entries[rid])        # referent is the sub-circuit added by top-level command k
+            else:
+                r['ref_pos'] = pos.get(rid, -2 if r['comp'] else -1)     # -2: referent is a (nested) sub-circuit; -1: not listed at all
         e = {'cls': type(o).__name__, 'ch': [[c.id, c.channel.name] for c in o.channel_identifiers],
              's': ticks(o.start_time), 'e': ticks(o.end_time), 'd': ticks(o.duration), 'rel': r, 'sig': field_sig(o)}
         if top_entries and id(o) in top_entries:
             e['cmd'] = top_entries[id(o)]
+        elif id(o) in inside:
+            e['cmd'] = inside[id(o)]
         if hasattr(o, 'acquisition_tag'):
             e['tag'] = o.acquisition_tag
         res.append(e)
